@@ -424,4 +424,126 @@ theorem fft_butterfly_sqrt2_spec (A C : List Nat) (h1 h2 i w : Nat) (hA : Limbs 
     rw [r3]; rw [hee] at hr
     exact finish_pos A.length b1 _ _ T hr tc
 
+/-- undo a division by B^y given as a multiplied congruence: B^y·B^y2 = B^n ≡ −1 -/
+theorem unshift (n y y2 : Nat) (hy : y + y2 = n) (t a q : Int)
+    (h : t * (B : Int) ^ y ≡ a * (B : Int) ^ y + q [ZMOD pmod n]) :
+    t ≡ a - q * (B : Int) ^ y2 [ZMOD pmod n] := by
+  rw [modEq_pmod_iff] at h ⊢
+  obtain ⟨k, hk⟩ := h
+  refine ⟨t - a - k * (B : Int) ^ y2, ?_⟩
+  have hP : (B : Int) ^ n = (B : Int) ^ y * (B : Int) ^ y2 := by rw [← pow_add, hy]
+  rw [hP] at hk ⊢
+  linear_combination (-(B : Int) ^ y2) * hk
+
+theorem mul_2expmod_if (x : List Nat) (d : Nat) : (if d ≠ 0 then mul_2expmod x d else x) = mul_2expmod x d := by
+  by_cases h : d = 0
+  · subst h; simp [mul_2expmod]
+  · simp [h]
+
+/-- mpir_ifft_butterfly_sqrt2: (s, t) = (a − b·ω, a + b·ω) with
+    ω = 2^(wn − i/2 − i·(w/2) − 1 + wn/4)·(2^(wn/2) − 1), the inverse of the forward twiddle -/
+theorem ifft_butterfly_sqrt2_spec (A C : List Nat) (h1 h2 i w : Nat) (hA : Limbs (A ++ [h1])) (hC : Limbs (C ++ [h2]))
+    (hl : A.length = C.length) (hn : 1 ≤ A.length)
+    (hb : i / 2 + i * (w / 2) + 1 ≤ A.length * 64)
+    (t1 : TopTiny (A ++ [h1])) (t2 : TopTiny (C ++ [h2])) :
+    ∃ ss sg ts tg i2', ifft_butterfly_sqrt2 (A ++ [h1]) (C ++ [h2]) i w = (ss ++ [sg], ts ++ [tg], i2') ∧
+      ss.length = A.length ∧ ts.length = A.length ∧ Limbs (ss ++ [sg]) ∧ Limbs (ts ++ [tg]) ∧
+      rval (ss ++ [sg]) ≡ rval (A ++ [h1]) - rval (C ++ [h2]) *
+        (2 ^ (A.length * 64 - i / 2 - i * (w / 2) - 1 + A.length * 64 / 4) * (2 ^ (32 * A.length) - 1))
+        [ZMOD pmod A.length] ∧
+      rval (ts ++ [tg]) ≡ rval (A ++ [h1]) + rval (C ++ [h2]) *
+        (2 ^ (A.length * 64 - i / 2 - i * (w / 2) - 1 + A.length * 64 / 4) * (2 ^ (32 * A.length) - 1))
+        [ZMOD pmod A.length] := by
+  have hlen : (A ++ [h1]).length - 1 = A.length := by simp
+  unfold ifft_butterfly_sqrt2
+  simp only [hlen, mul_2expmod_if]
+  generalize hb1 : A.length * 64 - i / 2 - i * (w / 2) - 1 + A.length * 64 / 4 = b1 at *
+  have hb1lt : b1 < 2 * (A.length * 64) := by omega
+  obtain ⟨e, he, hcase⟩ : ∃ e, (if b1 ≥ A.length * 64 then b1 - A.length * 64 else b1) = e ∧
+      ((b1 ≥ A.length * 64 ∧ e = b1 - 64 * A.length) ∨ (¬ b1 ≥ A.length * 64 ∧ e = b1)) := by
+    by_cases hneg : b1 ≥ A.length * 64
+    · exact ⟨_, rfl, Or.inl ⟨hneg, by simp [hneg]; omega⟩⟩
+    · exact ⟨_, rfl, Or.inr ⟨hneg, by simp [hneg]⟩⟩
+  rw [he]
+  have he64 : e < 64 * A.length := by rcases hcase with ⟨_, h⟩ | ⟨_, h⟩ <;> omega
+  have hd : e % 64 < 64 := Nat.mod_lt _ (by norm_num)
+  have hdm := Nat.div_add_mod e 64
+  -- i2·2^d
+  have t2' : -2305843009213693952 ≤ sint h2 ∧ sint h2 < 2305843009213693952 := by
+    unfold TopTiny at t2; simp only [top_snoc] at t2; omega
+  obtain ⟨rs, rg, m1, m2, m3, m4, m5⟩ := mul_2expmod_small C h2 (e % 64) hC (by omega) hd t2'
+  have rsm : TopSmall (rs ++ [rg]) := by unfold TopSmall; simp only [top_snoc]; omega
+  rw [m1]
+  rw [← hl] at m4
+  -- the common conclusion once the tail is analysed
+  have fin : ∀ (qs : List Nat) (qg : Nat) (T : Int), qs.length = rs.length → Limbs (qs ++ [qg]) →
+      (rval (qs ++ [qg]) = T - rval (rs ++ [rg]) ∨ rval (qs ++ [qg]) = rval (rs ++ [rg]) - T) →
+      -(2 * (B : Int) ^ rs.length) < T → T < 2 * (B : Int) ^ rs.length →
+      rval (qs ++ [qg]) * (B : Int) ^ (e / 64) ≡ rval (C ++ [h2]) * (2 ^ b1 * (2 ^ (32 * A.length) - 1)) [ZMOD pmod A.length] →
+      ∃ ss sg ts tg i2', (match butterfly_rshB (A ++ [h1]) (qs ++ [qg]) 0 (A.length - e / 64) with
+          | (s, t, _, i2') => (s, t, i2')) = (ss ++ [sg], ts ++ [tg], i2') ∧
+        ss.length = A.length ∧ ts.length = A.length ∧ Limbs (ss ++ [sg]) ∧ Limbs (ts ++ [tg]) ∧
+        rval (ss ++ [sg]) ≡ rval (A ++ [h1]) - rval (C ++ [h2]) * (2 ^ b1 * (2 ^ (32 * A.length) - 1)) [ZMOD pmod A.length] ∧
+        rval (ts ++ [tg]) ≡ rval (A ++ [h1]) + rval (C ++ [h2]) * (2 ^ b1 * (2 ^ (32 * A.length) - 1)) [ZMOD pmod A.length] := by
+    intro qs qg T ql qL qv T1 T2 qc
+    -- TopSmall of the tail output
+    have qsm : TopSmall (qs ++ [qg]) := by
+      have ⟨hrs, hrg⟩ := Limbs_snoc.mp m3
+      have hv0 : (0 : Int) ≤ val rs := by positivity
+      have hv1 := valZ_lt rs hrs
+      have hP := BZpow_pos rs.length
+      have rb : -(2305843009213693953 * (B : Int) ^ rs.length) < rval (rs ++ [rg]) ∧
+          rval (rs ++ [rg]) < 2305843009213693953 * (B : Int) ^ rs.length := by
+        rw [rval_snoc]; constructor <;> nlinarith
+      rw [← ql] at rb T1 T2 hP
+      have tb := top_bounds qs qg qL (-2305843009213693955) 2305843009213693955
+        (by rcases qv with h | h <;> rw [h] <;> linarith [rb.1, rb.2])
+        (by rcases qv with h | h <;> rw [h] <;> linarith [rb.1, rb.2])
+      unfold TopSmall; simp only [top_snoc]; omega
+    obtain ⟨ss, sg, ts, tg, eb, l1, l2, la, lb, r1, r2⟩ :=
+      rshB_x0_spec A qs h1 qg (A.length - e / 64) hA qL (by rw [ql, m2, hl]) hn (by omega) t1.small qsm
+    refine ⟨ss, sg, ts, tg, qs ++ [qg], by rw [eb], l1, l2, la, lb, ?_, ?_⟩
+    · have := unshift A.length (A.length - e / 64) (e / 64) (by omega) _ _ _ r1
+      exact this.trans ((Int.ModEq.refl _).sub qc)
+    · have r2' : rval (ts ++ [tg]) * (B : Int) ^ (A.length - e / 64) ≡
+          rval (A ++ [h1]) * (B : Int) ^ (A.length - e / 64) + (-rval (qs ++ [qg])) [ZMOD pmod A.length] := by
+        rw [← sub_eq_add_neg]; exact r2
+      have := unshift A.length (A.length - e / 64) (e / 64) (by omega) _ _ _ r2'
+      rw [neg_mul, sub_neg_eq_add] at this
+      exact this.trans ((Int.ModEq.refl _).add qc)
+  have e2 : (2 : Int) ^ e = 2 ^ (e % 64) * (B : Int) ^ (e / 64) := by
+    rw [B_pow_two, ← pow_add]; congr 1; omega
+  rcases hcase with ⟨hneg, hee⟩ | ⟨hneg, hee⟩
+  · have hdec : (!decide (¬ b1 ≥ A.length * 64)) = true := by simp [hneg]
+    rw [hdec]
+    obtain ⟨qs, qg, T, e3, l3, L3, r3, tc, T1, T2⟩ := sqrt2Tail_spec rs rg true m3 (by omega) rsm
+    simp only [↓reduceIte] at r3
+    rw [e3]
+    apply fin qs qg T l3 L3 (Or.inr r3) T1 T2
+    rw [m2, ← hl] at tc
+    have hr : rval (rs ++ [rg]) ≡ rval (C ++ [h2]) * 2 ^ ((e % 64 + 64 * A.length) - 64 * A.length) [ZMOD pmod A.length] := by
+      rw [Nat.add_sub_cancel]; exact m4
+    have := finish_neg A.length (e % 64 + 64 * A.length) _ _ T (by omega) hr tc
+    rw [r3]
+    have hpow : (2 : Int) ^ b1 = 2 ^ (e % 64 + 64 * A.length) * (B : Int) ^ (e / 64) := by
+      rw [B_pow_two, ← pow_add]; congr 1; omega
+    rw [hpow]
+    have := this.mul_right ((B : Int) ^ (e / 64))
+    refine this.trans ?_
+    ring_nf; exact Int.ModEq.refl _
+  · have hdec : (!decide (¬ b1 ≥ A.length * 64)) = false := by simp [hneg]
+    rw [hdec]
+    obtain ⟨qs, qg, T, e3, l3, L3, r3, tc, T1, T2⟩ := sqrt2Tail_spec rs rg false m3 (by omega) rsm
+    simp only [Bool.false_eq_true, ↓reduceIte] at r3
+    rw [e3]
+    apply fin qs qg T l3 L3 (Or.inl r3) T1 T2
+    rw [m2, ← hl] at tc
+    have := finish_pos A.length (e % 64) _ _ T m4 tc
+    rw [r3]
+    have hpow : (2 : Int) ^ b1 = 2 ^ (e % 64) * (B : Int) ^ (e / 64) := by rw [← hee]; exact e2
+    rw [hpow]
+    have := this.mul_right ((B : Int) ^ (e / 64))
+    refine this.trans ?_
+    ring_nf; exact Int.ModEq.refl _
+
 end Mpir.Fft
